@@ -19,4 +19,6 @@ func VerifSetConfig(epochMs int64, nodeBits uint8, nodeAtLowest bool) (restore f
 }
 
 // VerifConfig reads the layout globals.
-func VerifConfig() (epochMs int64, nodeBits uint8, nodeAtLowest bool) { return _epoch, _nodeBits, _nodeAtLowest }
+func VerifConfig() (epochMs int64, nodeBits uint8, nodeAtLowest bool) {
+	return _epoch, _nodeBits, _nodeAtLowest
+}
